@@ -269,7 +269,12 @@ def shard(ctx, arg):
             G.enrich(rng, m)  # annotations, static values, debug info: more sections, index diffs shift
         if rng.random() < 0.3:
             m.version = rng.choice([b"035", b"037", b"038", b"039"])
-        data, w = W.write_dex(m, want_writer=True)
+        opts = {}
+        if rng.random() < 0.2:
+            prng = __import__("random").Random(rng.getrandbits(32))
+            opts["class_data_pad"] = lambda: prng.choice([0, 0, 0, 1, 2, 4])     # valid non-minimal uleb128 numbers, up to the full five bytes
+            ctx.count("files_with_padded_class_data_numbers")
+        data, w = W.write_dex(m, opts, want_writer=True)
         probs = W.self_check(data)
         if probs:
             ctx.inconclusive("writer self-check failed: %s" % probs)
